@@ -314,6 +314,8 @@ static void* loadFromOffset(int fd, offset_t offset, size_t length,
       offset & ~static_cast<offset_t>(galois::substrate::allocSize() - 1);
   offset_t alignment = offset - aligned;
   length += alignment;
+  if (length == 0) // empty piece at an aligned offset: mmap rejects length 0
+    length = 1;
   void* base = mmap(nullptr, length, PROT_READ, MAP_PRIVATE, fd, aligned);
   if (base == MAP_FAILED)
     GALOIS_SYS_DIE("failed allocating for fd ", fd);
